@@ -140,7 +140,7 @@ def generate(rng, tier):
         case["kw"] = {"allow_forest": rng.random() < 0.5}
     elif fn == "pagerank_edges":
         case["edges"] = gen_edges(rng, n, False, False)
-        case["kw"] = {"damping": rng.choice([0.5, 0.85, 0.99, 0.125]), "max_iter": rng.choice([1, 2, 5, 100, 1000]),
+        case["kw"] = {"damping": rng.choice([0.5, 0.85, 0.99, 0.125]), "max_iter": rng.choice([0, 1, 2, 5, 100, 1000]),
                       "tol": rng.choice([1e-3, 1e-6, 1e-9, 0.0])}
     else:
         case["edges"] = gen_edges(rng, n, False, False)
@@ -153,6 +153,20 @@ def generate(rng, tier):
     for k in list(case["kw"]):
         if rng.random() < 0.3:
             del case["kw"][k]
+    if fn in ("strongly_connected_components_edges", "topological_sort_edges", "bfs_edges", "dfs_edges") and rng.random() < 0.01:
+        # one deep path (a thousand or more nodes in a row, plus a few extra edges): depth, not size, is the point
+        n = case["n"] = rng.choice([1100, 1500, 3000])
+        perm = list(range(n))
+        if rng.random() < 0.5:
+            rng.shuffle(perm)
+        case["edges"] = [[perm[i], perm[i + 1]] for i in range(n - 1)]
+        for _ in range(rng.randrange(0, 4)):
+            i = rng.randrange(n - 1)
+            case["edges"].append([perm[i], perm[rng.randrange(i + 1, n)]])  # forward chords keep it acyclic
+        if "start" in case:
+            case["start"] = perm[0]
+            case["kw"] = {"target": rng.choice([None, perm[-1]])} if "target" in case["kw"] or rng.random() < 0.5 else {}
+        return case
     if case["edges"] and rng.random() < 0.3:
         # the caller then replaces one entry of the same list in place (same length) and asks again
         old = case["edges"][rng.randrange(len(case["edges"]))]
